@@ -47,3 +47,40 @@ fn b_scalar_cmp_agrees_with_owned__complete() {
     assert!(bi.cmp(&BorrowedTerm::Integer(c)) == oi.cmp(&OwnedTerm::Integer(c)));
     std::mem::forget(bi); std::mem::forget(bf); std::mem::forget(oi); std::mem::forget(of);
 }
+
+// the zero-copy module has its own copy of bigint_to_f64
+/// bigint_to_f64 on magnitudes below 2^48 (1..=6 digits, every digit value): exactly the integer, with the sign of the big
+/// integer.  Bounded: longer digit strings go through the same loop but round (known finding C12-bigint-float-lossy).
+#[kani::proof]
+#[kani::unwind(9)]
+fn b_bigint_to_f64_small__bounded_6digits() {
+    let n: usize = kani::any();
+    kani::assume(n >= 1 && n <= 6);
+    let d: [u8; 6] = kani::any();
+    let neg: bool = kani::any();
+    let big = BigInt { sign: if neg { Sign::Negative } else { Sign::Positive }, digits: d[..n].to_vec() };
+    let mut m: u64 = 0;
+    let mut k = 0;
+    while k < 6 { if k < n { m |= (d[k] as u64) << (8 * k); } k += 1; }
+    let want = if neg { -(m as f64) } else { m as f64 };
+    let got = bigint_to_f64(&big);
+    assert!(got == want);
+    std::mem::forget(big);
+}
+
+/// bigint_to_f64 beyond the range of f64 (129 digits, top digit non-zero: |x| >= 2^1024): the infinity of the big integer's
+/// sign.  Bounded: this one digit count, lower digits zero.
+#[kani::proof]
+#[kani::unwind(131)]
+fn b_bigint_to_f64_overflow_sign__bounded_129digits() {
+    let top: u8 = kani::any();
+    kani::assume(top != 0);
+    let neg: bool = kani::any();
+    let mut digits = vec![0u8; 129];
+    digits[128] = top;
+    let big = BigInt { sign: if neg { Sign::Negative } else { Sign::Positive }, digits };
+    let got = bigint_to_f64(&big);
+    assert!(got.is_infinite());
+    assert!(got.is_sign_negative() == neg);
+    std::mem::forget(big);
+}
